@@ -8,6 +8,7 @@
   came" (DESIGN §4.5); inter-block gaps are within T4 by hypothesis (constant assembler clock).
 -/
 import GoSecs.Lemmas.Secs1
+import GoSecs.Lemmas.Secs1Line
 import GoSecs.Gen.Consts
 
 namespace GoSecs.Props.C18
@@ -92,12 +93,8 @@ theorem intact_block_acked (b : Block) (hb : b.body.length ≤ 244) :
     Corrupted or truncated transmissions never reach the assembler (`flipped_character_never_acked`), so
     "each block arrives intact, possibly repeated" is what a successful `sendBlock` of every block means.
 
-    FULL STATEMENT (not proved as a theorem): in `Line.run` over every fault schedule, every message in
-    `succeeded` of one endpoint occurs exactly once in `delivered` of the other.  Missing: the invariant
-    that the blocks `Endpoint.take`n by the peer within one connection generation form exactly such a
-    stream (block k is retransmitted only until ACKed; teardown resets both assemblers).  That link is
-    covered by the end-to-end correspondence runs, not by proof. -/
-theorem success_implies_delivered_once_partial (c : Cfg) (ms : List (OutMsg × Arrivals))
+    The composed statement over the two-endpoint model is `success_implies_delivered_once` below. -/
+theorem exactly_once_under_retransmission (c : Cfg) (ms : List (OutMsg × Arrivals))
     (hs : ∀ x ∈ ms, Sendable c x.1 ∧ Fits c x.1 x.2) (hd : DistinctHdrs ms) :
     ((Asm.init c.isEquip c.deviceID c.t4).run (ms.flatMap (fun x => lineEvents x.1 x.2))).2.filterMap deliveredOf =
       ms.map (fun x => x.1.image) :=
@@ -134,6 +131,89 @@ theorem same_header_message_is_dropped :
     (receive ⟨false, 1, 100⟩ [⟨0, b⟩, ⟨1, b⟩]).filterMap id = [⟨h, [7]⟩] := by
   decide
 
+/-! ## The composed model: send succeeded ⇒ delivered exactly once -/
+
+/-- **Every message whose send call succeeds is delivered to the peer exactly once and intact; nothing is
+    delivered twice or altered; deliveries follow the order sent** — in the two-endpoint model, for every
+    fault schedule (intact, flipped character, truncated/dropped block, NAK, dropped ENQ/EOT, lost ACK, in any
+    order and number, including those that exhaust the retry limit and re-establish the link), every pair of
+    retry limits, and every pair of message queues, under the stated hypotheses: the messages are ones
+    `splitBody` accepts, addressed to the peer, with pairwise different headers per direction (`WellPosed`),
+    and inter-block gaps stay within T4 (the model's constant assembler clock).
+
+    For both directions X → Y, with `started` the messages X has put on the line (newest first):
+    * every message in `X.succeeded` has its image in `Y.delivered`, and `Y.delivered` has no repetition —
+      so it is there exactly once;
+    * `Y.delivered` is, in order, the images of a subsequence `D` of `X.started` that contains all of
+      `X.succeeded` in order: never altered, never out of order, nothing from nowhere. -/
+theorem success_implies_delivered_once (dev lm ls : Nat) (mq sq : List OutMsg) (hw : WellPosed dev mq sq) (fs : List Fault) :
+    let l := (Line.start dev lm ls mq sq).run fs
+    ((∀ m ∈ l.master.succeeded, m.image ∈ l.slave.delivered) ∧ l.slave.delivered.Nodup ∧
+      ∃ D, l.master.succeeded.Sublist D ∧ D.Sublist l.master.started ∧ l.slave.delivered = D.map OutMsg.image) ∧
+    ((∀ m ∈ l.slave.succeeded, m.image ∈ l.master.delivered) ∧ l.master.delivered.Nodup ∧
+      ∃ D, l.slave.succeeded.Sublist D ∧ D.Sublist l.slave.started ∧ l.master.delivered = D.map OutMsg.image) := by
+  intro l
+  obtain ⟨s1, D1, s2, D2, h1, h2⟩ := linv_run fs (linv_start dev lm ls mq sq hw)
+  exact ⟨dir_exactly_once h1, dir_exactly_once h2⟩
+
+/-- The blocks the peer takes within one connection generation are exactly what its assembler needs: after
+    any schedule, while a message is on the line the peer's assembler (through the simulation with the E4
+    reference receiver) holds precisely the first `k` blocks of that message, `k` being the number of ACKed
+    blocks or one more (ACK lost), and otherwise has no message in progress (`Dir`, preserved by every step). -/
+theorem line_invariant (dev lm ls : Nat) (mq sq : List OutMsg) (hw : WellPosed dev mq sq) (fs : List Fault) :
+    LInv dev ((Line.start dev lm ls mq sq).run fs) :=
+  linv_run fs (linv_start dev lm ls mq sq hw)
+
+/-! ## Contention in the middle of a multi-block message (the straddle case) -/
+
+/-- **The yield path shares the assembler.** In every master-holds step in which the slave takes the block
+    (intact transfer, ACK seen or lost) and the link is not re-established, the slave's assembler after the
+    step is its assembler before the step fed that block — no matter whether the slave was idle (the block came
+    in on `lineEngine`'s idle path) or had its own send pending and yielded (the block came in through
+    `sendBlock`'s `deliver`).  So blocks received during a yield continue the partial message begun on the idle
+    path: there is one accumulation state per connection generation. -/
+theorem yield_path_shares_assembler (l : Line) (f : Fault) (m : OutMsg) (blk : Block) (rest : List Block)
+    (hm : l.master.load.cur = some (m, blk :: rest)) (hf : f.effect ≠ .notReceived)
+    (hnt : (l.step f).slave.asm ≠ Asm.init l.slave.isEquip l.slave.deviceID 0) :
+    (l.step f).slave.asm = (l.slave.asm.accept 0 blk).1 ∧
+    l.slave.takeYield blk = l.slave.takeIdle blk :=
+  ⟨slave_take_same_assembler l f m blk rest hm hf hnt, rfl⟩
+
+/-- **Straddle: exactly once.** The master starts a message (any number of blocks) on an idle line; after any
+    fault schedule `fs1` — e.g. when some but not all of its blocks have been transferred — the host
+    application offers a message `m'` (fresh header), so the rest of the master's message is received on the
+    yield path; then any schedule `fs2`.  Both directions keep "send succeeded ⇒ delivered exactly once, intact,
+    in order": in particular the master's message, begun on the idle path and finished on the yield path, is
+    delivered once and complete. -/
+theorem straddle_exactly_once (dev lm ls : Nat) (m m' : OutMsg) (fs1 fs2 : List Fault)
+    (hw : WellPosed dev [m] []) (hs' : Sendable ⟨true, dev, 0⟩ m')
+    (hfresh : m'.hdr ∉ ((((Line.start dev lm ls [m] []).run fs1).slave.queue.reverse ++
+                        ((Line.start dev lm ls [m] []).run fs1).slave.started).map (·.hdr))) :
+    let l := (((Line.start dev lm ls [m] []).run fs1).apply (.offerSlave m')).run fs2
+    ((∀ x ∈ l.master.succeeded, x.image ∈ l.slave.delivered) ∧ l.slave.delivered.Nodup ∧
+      ∃ D, l.master.succeeded.Sublist D ∧ D.Sublist l.master.started ∧ l.slave.delivered = D.map OutMsg.image) ∧
+    ((∀ x ∈ l.slave.succeeded, x.image ∈ l.master.delivered) ∧ l.master.delivered.Nodup ∧
+      ∃ D, l.slave.succeeded.Sublist D ∧ D.Sublist l.slave.started ∧ l.master.delivered = D.map OutMsg.image) := by
+  intro l
+  have h0 := linv_run fs1 (linv_start dev lm ls [m] [] hw)
+  obtain ⟨s1, D1, s2, D2, h1, h2⟩ := linv_run fs2 (linv_offer_slave h0 m' hs' hfresh)
+  exact ⟨dir_exactly_once h1, dir_exactly_once h2⟩
+
+/-- The straddle scenario of the harness on the model, concretely (three blocks of a master message; the
+    host's message is offered after block 1): the master's message is delivered once, the host's follows. -/
+theorem straddle_scenario :
+    let hm : MsgHeader := { deviceID := 291, rBit := true, stream := 6, function := 11, s3 := 1 }
+    let hs : MsgHeader := { deviceID := 291, rBit := false, stream := 1, function := 13, s3 := 2 }
+    let b1 : Block := { hdr := buildHeader hm 1 false, body := [1] }
+    let b2 : Block := { hdr := buildHeader hm 2 false, body := [2] }
+    let b3 : Block := { hdr := buildHeader hm 3 true, body := [3] }
+    let l0 : Line := { master := { (Endpoint.init true 291 3 []) with cur := some (⟨hm, [1, 2, 3]⟩, [b1, b2, b3]), started := [⟨hm, [1, 2, 3]⟩] },
+                       slave := Endpoint.init false 291 3 [] }
+    let l := ((l0.step .none).apply (.offerSlave ⟨hs, []⟩)).run [.none, .none, .none]
+    l.quiescent = true ∧ l.slave.delivered = [hsmsHeader hm ++ [1, 2, 3]] ∧ l.master.delivered = [hsmsHeader hs] ∧
+    l.master.succeeded.length = 1 ∧ l.slave.succeeded.length = 1 := by
+  decide
+
 /-! ## Contention (block-transfer level) -/
 
 /-- **The master sends first.** For every configuration and every fault: whenever the master has a block
@@ -152,23 +232,30 @@ theorem contention_host_follows (l : Line) (m : OutMsg) (blk : Block) (rest : Li
     (l.step .none).slave.succeeded = l.slave.load.acked.succeeded :=
   slave_follows l m blk rest hm hs
 
-/-- **No stuck configuration (partial).** In every configuration where the master holds a block, every
-    fault leads to one of: the block is ACKed (the message advances or completes, retry counter 0); the
-    retry counter grows by one and stays within the limit; or the link is re-established with nothing on
-    the line and both counters 0.  Since the counter is bounded by the retry limit, a block is settled after
-    at most limit+1 steps.
+/-- **No stuck configuration.** In every configuration reachable from a start configuration by any fault
+    schedule, if anything is left to send (queued or on the line, at either end), the next step — under every
+    fault — strictly decreases the lexicographic measure
+    (blocks still to be ACKed incl. queued messages, master's remaining retries, slave's remaining retries):
+    a block is ACKed, or a message fails and the link is re-established (work drops), or the endpoint holding
+    the line uses up one retry.  `Prod.Lex` on naturals is well-founded, so every run reaches a quiescent
+    configuration: no deadlock, no livelock, with the master holding the line, the slave holding it, or a
+    rejected message at the head of a queue.  (Wall-clock liveness — T1/T2 actually expiring — is outside the
+    model.) -/
+theorem no_stuck_configuration (dev lm ls : Nat) (mq sq : List OutMsg) (fs : List Fault) (f : Fault)
+    (hq : ((Line.start dev lm ls mq sq).run fs).quiescent = false) :
+    MeasureLt (((Line.start dev lm ls mq sq).run fs).step f).measure ((Line.start dev lm ls mq sq).run fs).measure := by
+  obtain ⟨h1, h2⟩ := curOK_run fs _ (curOK_start dev lm ls mq sq).1 (curOK_start dev lm ls mq sq).2
+  exact measure_decreases _ f h1 h2 hq
 
-    FULL STATEMENT (not proved): for every schedule long enough (Σ blocks · (limit+1) steps) `Line.run`
-    reaches a quiescent configuration.  Missing: the symmetric case for the slave holding the line (same
-    proof shape) and the termination measure over queued messages; wall-clock liveness (T1/T2 actually
-    expiring) is outside the model. -/
-theorem no_stuck_configuration_partial (l : Line) (f : Fault) (m : OutMsg) (blk : Block) (rest : List Block)
-    (hm : l.master.load.cur = some (m, blk :: rest)) :
-    ((l.step f).master.cur = (if rest = [] then none else some (m, rest)) ∧ (l.step f).master.retry = 0) ∨
-    ((l.step f).master.cur = l.master.load.cur ∧ (l.step f).master.retry = l.master.load.retry + 1 ∧
-      (l.step f).master.retry ≤ l.master.load.limit) ∨
-    ((l.step f).master.cur = none ∧ (l.step f).master.retry = 0 ∧ (l.step f).slave.cur = none ∧ (l.step f).slave.retry = 0) :=
-  master_step_progress l f m blk rest hm
+/-- The same, spelled out, for any configuration in which no endpoint is "sending" an empty block list (true
+    of every reachable one): work drops, or it stays and the master's slack drops, or both stay and the slave's
+    slack drops. -/
+theorem no_stuck_configuration_cases (l : Line) (f : Fault) (hM : l.master.curOK) (hS : l.slave.curOK)
+    (hq : l.quiescent = false) :
+    (l.step f).work < l.work ∨
+    ((l.step f).work = l.work ∧ (l.step f).master.slack < l.master.slack) ∨
+    ((l.step f).work = l.work ∧ (l.step f).master.slack = l.master.slack ∧ (l.step f).slave.slack < l.slave.slack) :=
+  (step_decreases l f hM hS hq).1
 
 /-! ## Non-vacuity: contention, a lost ACK and a corrupted block, all messages delivered once -/
 
@@ -180,5 +267,11 @@ example :
     r.quiescent = true ∧ r.slave.delivered = [hsmsHeader hm ++ [1, 2]] ∧ r.master.delivered = [hsmsHeader hs] ∧
     r.master.succeeded.length = 1 ∧ r.slave.succeeded.length = 1 := by
   decide
+
+/-- The hypotheses of the composed theorem are satisfiable. -/
+example : WellPosed 291 [⟨{ deviceID := 291, rBit := true, stream := 1, function := 1, s3 := 1 }, [1, 2]⟩]
+                        [⟨{ deviceID := 291, rBit := false, stream := 2, function := 3, s3 := 2 }, []⟩] := by
+  refine ⟨?_, ?_, by decide, by decide⟩ <;> intro m hm <;> simp at hm <;> subst hm <;>
+    exact ⟨⟨by decide, by decide, by decide⟩, by decide, rfl, rfl⟩
 
 end GoSecs.Props.C18
